@@ -51,6 +51,9 @@ def parse_pairs(outs):
     return [(si + int(m.group(1)), int(m.group(2))) for si, out in outs for m in PAIR_RE.finditer(out)]
 
 
+HASH_SEEDS = [0, 1, 2, 3]
+
+
 def run_impl(work, cases):
     fixture = os.path.join(work, "fixture")
     if not os.path.isdir(fixture):
@@ -60,11 +63,31 @@ def run_impl(work, cases):
     oj = os.path.join(work, "impl_out.json")
     with open(cj, "w") as f:
         json.dump(cases, f)
-    p = subprocess.run([common.PY, os.path.join(common.VERIF, "harness", "render_impl.py"), fixture, cj, oj],
-                       env=common.sub_env(), capture_output=True, text=True, timeout=600, cwd=work)
-    if p.returncode != 0:
-        raise RuntimeError("render_impl.py failed:\n" + (p.stdout + p.stderr)[-3000:])
-    return json.load(open(oj))
+    # the implementation is run under several PYTHONHASHSEEDs at once; the first run is the one that is judged, the
+    # others only contribute their stub texts: a stub whose text depends on the hash seed (set iteration order leaking
+    # into the output) is reported to Coq as `rc_raised` (no one stub exists for this input)
+    procs = []
+    for hs in HASH_SEEDS:
+        out = oj if hs == HASH_SEEDS[0] else os.path.join(work, f"impl_out_h{hs}.json")
+        procs.append((hs, out, subprocess.Popen(
+            [common.PY, os.path.join(common.VERIF, "harness", "render_impl.py"), fixture, cj, out],
+            env=common.sub_env({"PYTHONHASHSEED": str(hs)}), stdout=subprocess.PIPE, stderr=subprocess.STDOUT, text=True,
+            cwd=work)))
+    outs = {}
+    for hs, out, pr in procs:
+        log, _ = pr.communicate(timeout=900)
+        if pr.returncode != 0:
+            raise RuntimeError(f"render_impl.py (PYTHONHASHSEED={hs}) failed:\n" + log[-3000:])
+        outs[hs] = json.load(open(out))
+    impl = outs[HASH_SEEDS[0]]
+    for i, r in enumerate(impl["results"]):
+        for hs in HASH_SEEDS[1:]:
+            other = outs[hs]["results"][i]["text"]
+            if other != r["text"] and not r["raised"]:
+                r["raised"] = (f"generation under PYTHONHASHSEED={hs} differs from the one under PYTHONHASHSEED={HASH_SEEDS[0]}; "
+                               f"it was: {other!r}")
+        r["term"] = r["term"].replace("__RAISED__", common.coq_bool(r["raised"] is not None), 1)
+    return impl
 
 
 def show_ty(j):
@@ -180,7 +203,7 @@ def explain(case, res, bits):
     if not res["imports_ok"]:
         extra += " an import line of the stub fails"
     if not failing and not extra:
-        extra = " every name resolves, but an annotation evaluates to a different type than the traced one (a name is shadowed)"
+        extra = " every name resolves, but an annotation evaluates to a different type than the traced one (shadowed name or wrong annotation)"
     return (f"stub of [{show_case(case)}] is not self-contained / does not denote the traced types:{extra} "
             + "; ".join(failing[:4]))[:900]
 
@@ -212,7 +235,7 @@ def run(ctx):
         if code == 0:
             continue
         bits = cls.get(i, 0)
-        rec = {"case": {k: c[k] for k in ("own", "fns", "label")}, "input": show_case(c), "impl_text": r["text"],
+        rec = {"case": {k: c[k] for k in ("own", "fns", "label", "history") if k in c}, "input": show_case(c), "impl_text": r["text"],
                "impl_annotations": r["annos"], "raised": r["raised"], "imports_ok": r["imports_ok"],
                "classification_bits": bits, "verdict": code}
         names = [name for b, name in KF_BITS if bits & b]
